@@ -17,6 +17,10 @@ pub struct Case {
     /// verdict then carries the canonical key of the environment reached
     #[serde(default, skip_serializing_if = "Option::is_none")]
     pub bfs: Option<i64>,
+    /// renaming: the same program written with the plain name 'alpha beta'; the two programs
+    /// must give the same slots (the reference model is not consulted)
+    #[serde(default, skip_serializing_if = "Option::is_none")]
+    pub plain: Option<Vec<String>>,
 }
 
 // ---- reference environment -------------------------------------------------------------
@@ -318,7 +322,7 @@ impl Prop for C03 {
                 for _ in 0..n {
                     lines.push(ch.pick(&NUM_LINES).to_string());
                 }
-                Some(Case { lines, bfs: None })
+                Some(Case { lines, bfs: None, plain: None })
             },
         ));
         f.push(Family::new(
@@ -332,7 +336,7 @@ impl Prop for C03 {
                     lines.push(ch.pick(&KIND_MIDDLE).to_string());
                 }
                 lines.push(ch.pick(&KIND_USES).to_string());
-                Some(Case { lines, bfs: None })
+                Some(Case { lines, bfs: None, plain: None })
             },
         ));
         {
@@ -348,7 +352,7 @@ impl Prop for C03 {
                     for _ in 0..n {
                         lines.push(ch.pick(&UNI_LINES).to_string());
                     }
-                    Some(Case { lines, bfs: None })
+                    Some(Case { lines, bfs: None, plain: None })
                 },
             ));
         }
@@ -365,7 +369,33 @@ impl Prop for C03 {
                     for _ in 0..n {
                         lines.push(ch.pick(&LONG_LINES).to_string());
                     }
-                    Some(Case { lines, bfs: None })
+                    Some(Case { lines, bfs: None, plain: None })
+                },
+            ));
+        }
+        {
+            const NAMES: [&str; 10] = ["lump sum", "take-home pay", "net-income", "unit times", "sum total", "a-b", "tax in", "half of it", "cost per day", "rate as of june"];
+            const T_LINES: [&str; 12] = ["@ = 5", "@ = 7", "@ = @ + 5", "@ + 1", "2 * @", "x = @", "x + @", "@ = 1 +", "@", "@ = 10 usd", "@ to eur", "@ = 1 usd + 1 km"];
+            let dr = tier.pick(3, 4);
+            f.push(Family::new(
+                "renamed-programs",
+                Mode::Full,
+                &format!("names that contain an operator word, a connective keyword, a month word or a hyphen ({:?}): every program of 'x = 3', a line that binds the name, and 1..={} lines over {} line kinds (bind, re-bind, re-bind through itself, uses, failing re-bindings, money) gives the same slots as the same program written with the plain name 'alpha beta'", NAMES, dr, T_LINES.len()),
+                move |ch| {
+                    let name = *ch.pick(&NAMES);
+                    let n = 2 + ch.choose(dr);
+                    let mut lines = Vec::new();
+                    let mut plain = Vec::new();
+                    lines.push("x = 3".to_string());
+                    plain.push("x = 3".to_string());
+                    for i in 0..n {
+                        // the first line binds the name (what an unbound name means is no statement of C03,
+                        // and a hyphen or operator word in an unbound name is an operator)
+                        let t = if i == 0 { *ch.pick(&["@ = 5", "@ = 10 usd"]) } else { *ch.pick(&T_LINES) };
+                        lines.push(t.replace('@', name));
+                        plain.push(t.replace('@', "alpha beta"));
+                    }
+                    Some(Case { lines, bfs: None, plain: Some(plain) })
                 },
             ));
         }
@@ -382,7 +412,7 @@ impl Prop for C03 {
                     for _ in 0..n {
                         lines.push(ch.pick(&MONTH_LINES).to_string());
                     }
-                    Some(Case { lines, bfs: None })
+                    Some(Case { lines, bfs: None, plain: None })
                 },
             ));
         }
@@ -402,7 +432,7 @@ impl Prop for C03 {
                     1 => lines.push((0..k.min(5)).map(|i| NAMES[i]).collect::<Vec<_>>().join(" * ")),
                     _ => lines.push(NAMES[k - 1].to_string()),
                 }
-                Some(Case { lines, bfs: None })
+                Some(Case { lines, bfs: None, plain: None })
             },
         ));
         if tier == Tier::Thorough {
@@ -417,7 +447,7 @@ impl Prop for C03 {
                         lines.push(ch.pick_dev(&all).to_string());
                     }
                     lines.push("a".to_string());
-                    Some(Case { lines, bfs: None })
+                    Some(Case { lines, bfs: None, plain: None })
                 },
             ));
         }
@@ -431,7 +461,7 @@ impl Prop for C03 {
             &format!("explicit-state search over programs: an edge appends one of the {} number line kinds to the shortest program that reached a state and runs the whole program three ways (LF, CRLF, re-used session) against the reference environment; a state is the model environment (names a, b, 'a b', ab with their values) together with the fingerprint of what the names evaluate to at the end of the program; state constraint: every known value within +-{} (states beyond it are checked, not expanded); depth bound {}", NUM_LINES.len(), bound, depth),
             NUM_LINES.len(),
             depth,
-            move |h| Case { lines: h.iter().map(|i| NUM_LINES[*i].to_string()).collect(), bfs: Some(bound) },
+            move |h| Case { lines: h.iter().map(|i| NUM_LINES[*i].to_string()).collect(), bfs: Some(bound), plain: None },
         )]
     }
 
@@ -441,6 +471,34 @@ impl Prop for C03 {
             let mut v = Verdict { input: "<empty program>".into(), class: "unspecified", ..Default::default() };
             if c.bfs.is_some() {
                 v.key = Some("{}".into());
+            }
+            return v;
+        }
+        if let Some(plain) = &c.plain {
+            let calc = ctx.calc(&Cfg::default());
+            let mut v = Verdict { input: c.lines.join(" \\n "), class: "renaming-compared", compared: true, evals: 0, ..Default::default() };
+            let a = obs::eval(calc, "en", &c.lines.join("\n"));
+            let b = obs::eval(calc, "en", &plain.join("\n"));
+            v.evals += 2 * c.lines.len() as u64;
+            v.expected = format!("{} -> {}", plain.join(" \\n "), b.brief());
+            v.observed = a.brief();
+            match (&a, &b) {
+                (Run::Panic(p), _) | (_, Run::Panic(p)) => {
+                    v.violation = Some(format!("panic: {}", p.message));
+                    v.site = Some(p.site.clone());
+                }
+                (Run::Done(x), Run::Done(y)) => {
+                    let same = x.status == y.status
+                        && x.slots.len() == y.slots.len()
+                        && x.slots.iter().zip(y.slots.iter()).all(|(p, q)| match (p, q) {
+                            (Slot::Ok { val: va, out: oa }, Slot::Ok { val: vb, out: ob }) => obs::val_close(va, vb, 1e-12) && oa == ob,
+                            (Slot::Err(_), Slot::Err(_)) | (Slot::Empty, Slot::Empty) => true,
+                            _ => false,
+                        });
+                    if !same {
+                        v.violation = Some("the program gives other slots than the same program written with a plain name".into());
+                    }
+                }
             }
             return v;
         }
